@@ -68,6 +68,43 @@ def raw_lemmas(ctx, eng, ce):
     return lem
 
 
+def oam_plain_lemma(ctx, eng, ce):
+    """LCD off (hence, by xinv, the OAM-bug window closed): a CPU machine cycle that writes OAM, reads OAM or moves a 16-bit
+    pointer through FE00-FEFF and then ends with oam.Corrupt() leaves OAM = store(OAM, addr, value) resp. unchanged"""
+    from engine.core import Ptr
+    lem = Lem()
+    st0, w, m, env = mc.mapper_world(ctx, eng, ce, "mbc1", extra=["!m.ppu.enabled", "quiet(m.oam)", "!m.oam.dmaRunning"])
+    eng.modular = set()
+    o = w.component("oam.OAM")
+    otid = ctx.prog.named["oam.OAM"]
+
+    def oamarr(s):
+        return eng.load(s, Ptr(o.obj, tuple(i for i, _ in ctx.prog.field_index(otid, "oam")))).term
+    a = z3.BitVec("a", 16)
+    v = z3.BitVec("v", 8)
+    st0.pc.append(z3.And(z3.UGE(a, 0xFE00), z3.ULE(a, 0xFEFF)))
+    lem.covers.append(("lemma:oam-plain#cover", st0.pcond()))
+    A0 = oamarr(st0)
+    viol = []
+    for (s1, _) in mc.call(ctx, eng, st0.fork(), mc.M + "Write", [m, a, v]):
+        for (s2, _) in mc.call(ctx, eng, s1, "(*oam.OAM).Corrupt", [o]):
+            want = z3.If(z3.ULT(a, 0xFEA0), z3.Store(A0, z3.ZeroExt(48, a - 0xFE00), v), A0)
+            viol.append(z3.And(s2.pcond(), oamarr(s2) != want))
+    lem.add("lemma:oam-plain:write-then-end-of-cycle", z3.Or(*viol) if viol else z3.BoolVal(True))
+    viol = []
+    for (s1, r) in mc.call(ctx, eng, st0.fork(), mc.M + "Read", [m, a]):
+        for (s2, _) in mc.call(ctx, eng, s1, "(*oam.OAM).Corrupt", [o]):
+            viol.append(z3.And(s2.pcond(), z3.Or(oamarr(s2) != A0, r != z3.If(z3.ULT(a, 0xFEA0), z3.Select(A0, z3.ZeroExt(48, a - 0xFE00)), z3.BitVecVal(0, 8)))))
+    lem.add("lemma:oam-plain:read-then-end-of-cycle", z3.Or(*viol) if viol else z3.BoolVal(True))
+    viol = []
+    for (s1, _) in mc.call(ctx, eng, st0.fork(), "(*oam.OAM).TriggerWriteCorruption", [o, a]):
+        for (s2, _) in mc.call(ctx, eng, s1, "(*oam.OAM).Corrupt", [o]):
+            viol.append(z3.And(s2.pcond(), oamarr(s2) != A0))
+    lem.add("lemma:oam-plain:pointer-move-then-end-of-cycle", z3.Or(*viol) if viol else z3.BoolVal(True))
+    lem.stats = dict(eng.stats)
+    return lem
+
+
 def tasks(ctx):
     ts = [mc.partition_task()]
     for cls in mc.memory_map():
@@ -80,6 +117,11 @@ def tasks(ctx):
     ov = {"Audio.ch2.sweep": mc.nil_value, "Mapper.mbc": mc.mbc_override("mbc1")}
     ts.append(Task(mc.M + "Read", mc.M + "Read", overrides=ov, keep=keepR, extra_requires=[mbc_valid("mbc1")]))
     ts.append(Task(mc.M + "Write", mc.M + "Write", overrides=ov, keep=keepW, extra_requires=[mbc_valid("mbc1")]))
+    # "with the LCD off ... OAM behaves as plain memory": rests on the cross-object invariant oam.corrupt == (LCD on && mode 2)
+    import props.ppu_common as pc
+    ts += [pc.ppu_task("WriteLCDC", ["xinv", "inv"]), pc.ppu_task("disable", ["0", "window", "inv"]), pc.ppu_task("enable", ["0", "inv"]),
+           pc.ppu_task("EndMachineCycle", ["xinv", "inv"])]
+    ts.append(LemmaTask("lemma:oam-plain-with-lcd-off", oam_plain_lemma, ["(*oam.OAM).Write", "(*oam.OAM).Read", "(*oam.OAM).Corrupt", "(*oam.OAM).TriggerWriteCorruption"]))
     ts.append(LemmaTask("lemma:readback", raw_lemmas, [mc.M + "Read", mc.M + "Write", "register handlers (inlined)"]))
     return filter_tasks(ts)
 
